@@ -12,6 +12,39 @@ Definition handler_with_ref (h_zero : hop) (f_growcap : nat -> nat) (s_Logger : 
   let n := (Z.to_nat (h_len s_ops) + 1)%nat in
   Some ((s_Logger, (List.length heap_, 0%nat, n, n)), heap_ ++ [h_read heap_ s_ops ++ [op]]).
 
+Definition acell : Type := Z.               (* one Attr (an attribute of a record): which one *)
+
+(* nest at the level of contents: what WithAttrs / WithGroup added, innermost last, around the attributes of
+   a record; a group without content is left out (Model/Adapters.v nest, with the grouping as a parameter) *)
+Definition nest_op (f_group : bytes -> list acell -> acell) (op : bytes * list acell) (inner : list acell) : list acell :=
+  match fst op with
+  | [] => snd op ++ inner
+  | _ :: _ => match inner with [] => [] | _ :: _ => [f_group (fst op) inner] end
+  end.
+Definition nest_cells (f_group : bytes -> list acell -> acell) (ops : list (bytes * list acell)) (fields : list acell) : list acell :=
+  fold_right (nest_op f_group) fields ops.
+
 (* a slice is well formed in a heap: its cells exist *)
 Definition h_ok {A} (h : heap A) (s : hslice) : bool :=
   let '(a, o, l, c) := s in (a <? List.length h)%nat && (o + l <=? List.length (nth a h []))%nat && (l <=? c)%nat.
+
+(* the fallback of nest: the contents of the model in ONE new array (or the caller's slice when nothing was added) *)
+Definition handler_nest_ref (h_zero : acell) (f_growcap : nat -> nat) (f_group : bytes -> list acell -> acell)
+  (s_ops : list (bytes * hslice)) (fields : hslice) (heap_ : heap acell) : option (hslice * heap acell) :=
+  let cells := nest_cells f_group (map (fun op => (fst op, h_read heap_ (snd op))) s_ops) (h_read heap_ fields) in
+  match s_ops with
+  | [] => Some (fields, heap_)
+  | _ :: _ => Some (h_lit heap_ cells)
+  end.
+
+(* one round of nest on the heap, with the primitives the translation uses *)
+Definition nest_step (h_zero : acell) (gc : nat -> nat) (f_group : bytes -> list acell -> acell)
+  (op : bytes * hslice) (f : hslice) (h : heap acell) : option (hslice * heap acell) :=
+  if bytes_eqb (fst op) []
+  then match h_make_cap h 0 (h_len (snd op) + h_len f) h_zero with
+       | None => None
+       | Some (s1, h1) =>
+           let '(s2, h2) := h_append_all gc h1 s1 (h_read h1 (snd op)) in
+           Some (h_append_all gc h2 s2 (h_read h2 f))
+       end
+  else if 0 <? h_len f then Some (h_lit h [f_group (fst op) (h_read h f)]) else Some (f, h).
